@@ -265,7 +265,7 @@ class DAGRunConcurrentManager(DAGRunManagerLike):
                 u - Node
                 v - Node Edge
             """
-            if self.dag.graph.edges[u, v].get(EdgeField.case_branch):
+            if self.dag.graph.edges[u, v].get(EdgeField.case_branch) is not None:
                 return False
 
             # The candidates of a OneOf are run by _run_oneof itself. A candidate that has been opened must not become
